@@ -19,6 +19,8 @@ pub struct Builder {
     context: Context,
     preset: Preset,
     block_content_encoder_map: Option<BlockContentEncoderMap>,
+    #[cfg(noodles_verif)]
+    verif_records_per_slice: Option<usize>,
 }
 
 impl Builder {
@@ -96,6 +98,16 @@ impl Builder {
         self
     }
 
+    /// Verification hook (H3, async twin): overrides the number of records per slice (and, as there
+    /// is one slice per container, per container). Not part of the public API; only compiled with
+    /// `--cfg noodles_verif`.
+    #[cfg(noodles_verif)]
+    pub fn set_records_per_slice(mut self, records_per_slice: usize) -> Self {
+        assert!(records_per_slice > 0);
+        self.verif_records_per_slice = Some(records_per_slice);
+        self
+    }
+
     /// Builds an async CRAM writer from a path.
     ///
     /// # Examples
@@ -141,6 +153,8 @@ impl Builder {
         }
 
         let records_per_slice = self.preset.records_per_slice();
+        #[cfg(noodles_verif)]
+        let records_per_slice = self.verif_records_per_slice.unwrap_or(records_per_slice);
         let records_per_container = DEFAULT_SLICES_PER_CONTAINER * records_per_slice;
 
         self.context.records_per_slice = records_per_slice;
